@@ -147,6 +147,21 @@ func (w *World) verifyContractPass(con *Contract, clean map[string]bool) *Gen {
 	// vacuity: the precondition (with typing assumptions) must be satisfiable
 	cov := g.addObl("cover", "cover:requires", con.Props, "true", "true", nil, "precondition satisfiable", fn.Pos())
 	cov.Cover = true
+	// onlyuse p: callees - a structural obligation over go/ssa (no SMT): the parameter is handed to the listed
+	// callees (or on to package helpers, followed) and is used for nothing else
+	for _, pn := range sortedKeysSS(con.OnlyUse) {
+		props := con.OnlyUseProps[pn]
+		if len(props) == 0 {
+			props = con.Props
+		}
+		why := g.onlyUse(fn, pn, con.OnlyUse[pn], 0)
+		goal := "true"
+		if why != "" {
+			goal = "false"
+		}
+		o := g.addObl("structural", "onlyuse:"+pn, props, "true", goal, nil, "parameter "+pn+" is only handed to "+strings.Join(con.OnlyUse[pn], ", ")+" "+why, fn.Pos())
+		_ = o
+	}
 	f.exec(st)
 	g.registerReplayInputs()
 	if len(f.rets) == 0 && !con.MayPanic {
@@ -452,4 +467,104 @@ func callsRecover(fn *ssa.Function) bool {
 		}
 	}
 	return false
+}
+
+
+func sortedKeysSS(m map[string][]string) []string {
+	var ks []string
+	for k := range m {
+		ks = append(ks, k)
+	}
+	sort.Strings(ks)
+	return ks
+}
+
+// onlyUse returns "" if every use of parameter pn of fn is as an argument of one of the allowed callees
+// (conversions between interface types, phis and spills to a local are followed; a package function without
+// contract that receives the value is followed into), otherwise a description of the first other use.
+func (g *Gen) onlyUse(fn *ssa.Function, pn string, allowed []string, depth int) string {
+	var start ssa.Value
+	for _, p := range fn.Params {
+		if p.Name() == pn {
+			start = p
+		}
+	}
+	if start == nil {
+		return "(no parameter " + pn + ")"
+	}
+	ok := map[string]bool{}
+	for _, a := range allowed {
+		ok[a] = true
+	}
+	seen := map[ssa.Value]bool{}
+	work := []ssa.Value{start}
+	for len(work) > 0 {
+		v := work[len(work)-1]
+		work = work[:len(work)-1]
+		if seen[v] {
+			continue
+		}
+		seen[v] = true
+		refs := v.Referrers()
+		if refs == nil {
+			continue
+		}
+		for _, in := range *refs {
+			switch x := in.(type) {
+			case *ssa.DebugRef:
+			case *ssa.MakeInterface:
+				work = append(work, x)
+			case *ssa.ChangeInterface:
+				work = append(work, x)
+			case *ssa.ChangeType:
+				work = append(work, x)
+			case *ssa.Phi:
+				work = append(work, x)
+			case *ssa.Store:
+				if x.Val == v {
+					if al, isAl := x.Addr.(*ssa.Alloc); isAl {
+						if ar := al.Referrers(); ar != nil {
+							for _, u := range *ar {
+								if ld, isLd := u.(*ssa.UnOp); isLd && ld.Op == token.MUL {
+									work = append(work, ld)
+								}
+							}
+						}
+						continue
+					}
+					return fmt.Sprintf("(stored at %s)", g.W.fset.Position(x.Pos()))
+				}
+			case ssa.CallInstruction:
+				c := x.Common()
+				var key string
+				if c.IsInvoke() {
+					key = g.W.typeName(c.Value.Type()) + "." + c.Method.Name()
+				} else if sf := c.StaticCallee(); sf != nil {
+					key = g.W.relName(sf)
+					if !ok[key] && g.W.inPkg(sf) && g.W.db.Contracts[key] == nil && len(sf.Blocks) > 0 && depth < 3 {
+						bad := ""
+						for i, a := range c.Args {
+							if a == v && i < len(sf.Params) {
+								if why := g.onlyUse(sf, sf.Params[i].Name(), allowed, depth+1); why != "" {
+									bad = why
+								}
+							}
+						}
+						if bad != "" {
+							return bad
+						}
+						continue
+					}
+				} else {
+					key = "dynamic call"
+				}
+				if !ok[key] {
+					return fmt.Sprintf("(used by %s at %s)", key, g.W.fset.Position(in.Pos()))
+				}
+			default:
+				return fmt.Sprintf("(used by %T at %s)", in, g.W.fset.Position(in.Pos()))
+			}
+		}
+	}
+	return ""
 }
